@@ -35,3 +35,5 @@ def run(rep, tier):
     rep.rule("L-lifting-eraseRegion", "Textgrid.eraseRegion on a generic textgrid: per-tier result equals the tier-level eraseRegion(truncate), shared span, validate() True")
     for shape in ([("interval", "I", 1), ("point", "E", 0)], [("interval", "E", 0), ("point", "P", 1)]):
         lifting(rep, shape, only="eraseRegion")
+    rep.rule("L-lifting-eraseRegion-ownspans", "same, on a textgrid whose tiers span only their own entries: the resulting textgrid has the span the operation defines")
+    lifting(rep, [("interval", "I", 2)], only="eraseRegion", own=True)
